@@ -12,6 +12,9 @@ VERIF_FAIL_MSGS = (
     'possible bit shift underflow/overflow', 'unreachable', 'failed this postcondition',
     'cannot show invariant holds', 'possible truncation', 'loop ensures not satisfied',
     'constructed value may fail to meet its declared type invariant',
+    'unable to prove post-condition of closure', 'unable to prove this pattern will successfully match',
+    'bitvector assertion not satisfied', 'requires not satisfied', 'decreases not satisfied at continue',
+    'cannot prove that there exists values that satisfy the condition of the', 'possible invariant collision',
 )
 RLIMIT_MSGS = ('Resource limit', 'rlimit', 'timed out', 'exceeded')
 
